@@ -571,6 +571,42 @@ Definition tcp_server_gen (fx fq eq : bool) (x : xreq) (idle_ms : option N) (svc
     end.
 Definition tcp_server := tcp_server_gen trunc_no_opt_is_min trunc_questions_limited err_resp_first_question_only.
 
+(* ---- dgram.rs receive: the message handed on is the whole receive buffer ---- *)
+
+(* DgramServer::recv_from reads into BufSource::create_buf() (VecBufSource: 1024
+   zero octets) and process_received_message parses the buffer itself, not
+   its first bytes_read octets: a datagram is cut at 1024 octets and otherwise
+   followed by zero padding, which parses as root-name questions / records when
+   the header counts ask for more than the datagram holds. *)
+Definition dgram_buffer_gen (whole : bool) (d : bytes) : bytes :=
+  if whole then firstn (N.to_nat dgram_buf_len) (d ++ repeat 0 (N.to_nat dgram_buf_len))
+  else firstn (N.to_nat dgram_buf_len) d.   (* only the octets received (T1: dgram_parses_whole_buffer = false) *)
+Definition dgram_buffer := dgram_buffer_gen dgram_parses_whole_buffer.
+
+(* Message::question().flatten(): the questions up to the first that does not parse *)
+Fixpoint parse_questions_prefix (n : nat) (w : bytes) : list question :=
+  match n with
+  | O => []
+  | S n' =>
+      match decode_abs w with
+      | inl (Some (nm, t1 :: t2 :: c1 :: c2 :: rest)) =>
+          mkQ nm (of_be16 t1 t2) (of_be16 c1 c2) :: parse_questions_prefix n' rest
+      | _ => []
+      end
+  end.
+
+(* the request a datagram without records (ANCOUNT = NSCOUNT = ARCOUNT = 0) and
+   without compression pointers is taken for *)
+Definition xreq_of_buffer (b : bytes) : option xreq :=
+  match parse_header b with
+  | Some (id, b2, _, (qd, an, ns, ar), rest) =>
+      if (an =? 0) && (ns =? 0) && (ar =? 0)
+      then Some (mkX id b2 qd (parse_questions_prefix (N.to_nat qd) rest) OptNone)
+      else None
+  | None => None
+  end.
+Definition xreq_of_datagram (d : bytes) : option xreq := xreq_of_buffer (dgram_buffer d).
+
 (* the server as a whole: request with nq copies of one question, QDCOUNT qd *)
 Definition mk_xreq (id b2 qd nq : N) (labels : list N) (qtype : N) (opt : opt_state) : xreq :=
   mkX id b2 qd (repeat (mkQ (mk_name labels) qtype 1) (N.to_nat nq)) opt.
@@ -590,6 +626,17 @@ Definition c16_srv (id b2 qd nq : N) (labels : list N) (qtype : N) (opt : opt_st
             end in
   do r <- udp_server x cfg sr;
   Ok (match r with Some m => Some (observe2 m) | None => None end).
+
+(* a raw datagram, answered by a service that echoes the questions and adds one
+   15-octet answer record *)
+Definition c16_pad (d : bytes) (cfg : option N) :=
+  match xreq_of_datagram d with
+  | None => Ok None
+  | Some x =>
+      let rb2 := N.setbit (N.land (x_b2 x) 121) 7 in
+      do r <- udp_server x cfg (SvcOk (mk_response (x_base x) rb2 0 1 15 0 11 None));
+      Ok (match r with Some m => Some (observe2 m) | None => None end)
+  end.
 
 Definition observe3 (m : msg) :=
   (observe2 m, match first_opt (m_ar m) with Some o => len (o_data o) | None => 0 end).
